@@ -514,7 +514,27 @@ func normHnd(t *T) *T {
 				return t.Args[0]
 			}
 		}
+	case "Value.opAdd", "Value.opMul":
+		// N5: arithmetic on two untyped constants is the untyped constant of the result
+		// (the default case of the op methods: Value{t: untypedInt, num: v.num op b.num})
+		if len(t.Args) == 2 && isUntypedImm(t.Args[0]) && isUntypedImm(t.Args[1]) {
+			a, b := linOf(t.Args[0].Args[0]), linOf(t.Args[1].Args[0])
+			if t.Name == "Value.opAdd" {
+				return &T{Op: "call", Name: "newUntypedInt", Args: []*T{a.add(b, 1).term()}}
+			}
+			if k, ok := a.isConst(); ok {
+				return &T{Op: "call", Name: "newUntypedInt", Args: []*T{b.scale(k).term()}}
+			}
+			if k, ok := b.isConst(); ok {
+				return &T{Op: "call", Name: "newUntypedInt", Args: []*T{a.scale(k).term()}}
+			}
+			return &T{Op: "call", Name: "newUntypedInt", Args: []*T{tBin("*", a.term(), b.term())}}
+		}
 	case "Value.opSub":
+		if len(t.Args) == 2 && isUntypedImm(t.Args[0]) && isUntypedImm(t.Args[1]) {
+			a, b := linOf(t.Args[0].Args[0]), linOf(t.Args[1].Args[0])
+			return &T{Op: "call", Name: "newUntypedInt", Args: []*T{a.add(b, -1).term()}}
+		}
 		if len(t.Args) == 2 && t.Args[1].Op == "call" && len(t.Args[1].Args) == 1 && isImmCtor(t.Args[1].Name) {
 			imm := t.Args[1]
 			neg := &T{Op: "call", Name: imm.Name, Args: []*T{negImm(imm.Args[0])}}
@@ -534,9 +554,16 @@ func normHnd(t *T) *T {
 		n := *t
 		n.str = ""
 		n.Args = []*T{linOf(t.Args[0]).term()}
+		if inner := stripIntConv(t.Args[0]); inner.Op == "bin" && inner.Name == "*" {
+			n.Args = []*T{tBin("*", linOf(inner.Args[0]).term(), linOf(inner.Args[1]).term())}
+		}
 		return &n
 	}
 	return t
+}
+
+func isUntypedImm(t *T) bool {
+	return t != nil && t.Op == "call" && t.Name == "newUntypedInt" && len(t.Args) == 1
 }
 
 func isImmCtor(name string) bool { return name == "newUntypedInt" || name == "Int" }
